@@ -26,8 +26,37 @@ def extract(repo: Path) -> dict:
             v = node.value
             if name == "isComment" and isinstance(v, ast.Compare) and isinstance(v.ops[0], ast.In):
                 out["commentChars"] = v.comparators[0].value
-            if name == "isShort" and isinstance(v, ast.Compare) and isinstance(v.ops[0], ast.LtE):
-                out["shortThreshold"] = v.comparators[0].value
+            if name == "isShort":
+                # `len(line) <= 6`            (as the code is)
+                # `len(line) <= 6 or not line.strip()`   (blank-only lines are short: variant blankShort)
+                cmp = v
+                out["blankShort"] = False
+                if isinstance(v, ast.BoolOp) and isinstance(v.op, ast.Or) and len(v.values) == 2:
+                    cmp, other = v.values
+                    if (isinstance(other, ast.UnaryOp) and isinstance(other.op, ast.Not)
+                            and isinstance(other.operand, ast.Call)
+                            and isinstance(other.operand.func, ast.Attribute)
+                            and other.operand.func.attr == "strip" and not other.operand.args):
+                        out["blankShort"] = True
+                    else:
+                        raise LookupError("fixed2free2.FortranLine.__analyse: isShort has an unknown second disjunct")
+                if isinstance(cmp, ast.Compare) and isinstance(cmp.ops[0], ast.LtE):
+                    out["shortThreshold"] = cmp.comparators[0].value
+            if name == "isNewComment":
+                # `"!" in fivechars and not self.isComment`, optionally (variant col7Comment)
+                # `("!" in fivechars or (not line[:6].strip() and line[6:].lstrip()[:1] == "!")) and not ...`
+                has_in = any(isinstance(c, ast.Compare) and isinstance(c.ops[0], ast.In)
+                             and isinstance(c.left, ast.Constant) and c.left.value == "!"
+                             and isinstance(c.comparators[0], ast.Name) for c in ast.walk(v))
+                calls = sorted(c.func.attr for c in ast.walk(v)
+                               if isinstance(c, ast.Call) and isinstance(c.func, ast.Attribute))
+                slices = {(getattr(c.lower, "value", None), getattr(c.upper, "value", None))
+                          for c in ast.walk(v) if isinstance(c, ast.Slice)}
+                if has_in and not calls and not slices:
+                    out["col7Comment"] = False
+                elif has_in and calls == ["lstrip", "strip"] and slices == {(None, 6), (6, None), (None, 1)}:
+                    out["col7Comment"] = True
+                # anything else: not found -> LookupError below
             if name == "isLong":
                 for c in ast.walk(v):
                     if isinstance(c, ast.Compare) and isinstance(c.ops[0], ast.Gt):
@@ -44,11 +73,15 @@ def extract(repo: Path) -> dict:
                 for c in ast.walk(v):
                     if isinstance(c, ast.Slice) and isinstance(c.lower, ast.Constant):
                         out["colLimit"] = c.lower.value
+                if isinstance(v.op, ast.Add) and isinstance(v.left, ast.Constant) and isinstance(v.left.value, str):
+                    out["excessLiteral"] = v.left.value
     need = {"commentChars": str, "shortThreshold": int, "longThreshold": int, "ompSentinel": str,
-            "notContChar": str, "colLimit": int}
+            "notContChar": str, "colLimit": int, "blankShort": bool, "col7Comment": bool, "excessLiteral": str}
     for k, t in need.items():
         if k not in out or not isinstance(out[k], t):
             raise LookupError(f"fixed2free2.FortranLine.__analyse: construct for {k} not found")
+    if out["excessLiteral"] not in ("!", "! "):
+        raise LookupError(f"fixed2free2.FortranLine.__analyse: overflow mark {out['excessLiteral']!r} is neither '!' nor '! '")
     # continueLine / __convert use the same column limit
     lims = set()
     for name in ("continueLine", "_FortranLine__convert", "__convert"):
@@ -79,6 +112,11 @@ def translate():
         f"def padColumns : List Nat := {t['padColumns']}",
         f"def ompSentinel : Str := {_lean_str(t['ompSentinel'])}",
         f"def notContChar : Str := {_lean_str(t['notContChar'])}",
+        "/-- the variant of the code, read from the shape of the assignments (see `Ford.Fixed.Variant`) -/",
+        f"def blankShort : Bool := {'true' if t['blankShort'] else 'false'}",
+        f"def col7Comment : Bool := {'true' if t['col7Comment'] else 'false'}",
+        f"/-- `excess_line = {t['excessLiteral']!r} + line[72:]` -/",
+        f"def excessLiteral : Str := {_lean_str(t['excessLiteral'])}",
         "end Ford.Fixed.Gen",
         "",
     ]
